@@ -15,6 +15,7 @@ const char *engine_for_check(const std::string &check)
     if (id == "C15" || id == "C05" || id == "C06") return "array";
     if (id == "C16" || id == "C17" || id == "C20" || id == "C10" || id == "C07") return "cal";
     if (id == "C09") return "corrupt";
+    if (id == "C03") return "chaos";
     if (const char *e = getenv("VSIM_ENGINE")) return e;
     return nullptr;
 }
